@@ -65,6 +65,7 @@ Consume ==
     /\ l <= Len(Ev(tid))
     /\ LET e == Ev(tid)[l]
        IN s' = CASE e.e = "registry" -> OnRegistry(e) [] e.e = "lookup" -> OnLookup(e) [] e.e = "backref" -> OnBackRef(e)
+                 [] e.e = "addfail" -> [s EXCEPT !.viol = @ \cup {"AddGivesEveryDeviceAnIdx"}]
                  [] e.e = "helpers" -> OnHelpers(e) [] e.e = "setup" -> OnSetup(e) [] OTHER -> s
     /\ l' = l + 1 /\ UNCHANGED tid
     /\ (l = Len(Ev(tid))) => PrintT(ToJson([tid |-> Traces[tid].meta.tid, viol |-> s'.viol, drift |-> s'.drift, n |-> Len(Ev(tid))]))
